@@ -47,18 +47,30 @@ REVIEWED = [
     ("log::LogReader::<'a>::reset", 'call:unwrap', r'Option::<&mut log::Reading>::unwrap$', 1, 'same invariant as LogReader::next'),
     ("log::LogReader::<'a>::next::{closure#0}", 'call:index', r'\[u8; 8\] as std::ops::Index(Mut)?<std::ops::Range<usize>>>::index(_mut)?$', 2,
      'buf[0..size]: size is a constant <= 8 at every call of the closure (obligation 4c)'),
-    ('table::Entry::<B>::is_tombstone', 'call:index', r'\[u8\] as std::ops::Index<std::ops::Range<usize>>>::index$', 1, 'first 2 bytes of an entry buffer (>= 10 bytes: PartialEntry / FullEntry / mapped slot)'),
-    ('table::Entry::<B>::is_multipart', 'call:index', r'\[u8\] as std::ops::Index<std::ops::Range<usize>>>::index$', 1, 'first 2 bytes of an entry buffer (>= 10 bytes)'),
-    ('table::Entry::<B>::is_multipart_v4', 'call:index', r'\[u8\] as std::ops::Index<std::ops::Range<usize>>>::index$', 1, 'first 2 bytes of an entry buffer (>= 10 bytes)'),
-    ('table::Entry::<B>::is_multihead', 'call:index', r'\[u8\] as std::ops::Index<std::ops::Range<usize>>>::index$', 1, 'first 2 bytes of an entry buffer (>= 10 bytes)'),
-    ('table::Entry::<B>::is_multihead_compressed', 'call:index', r'\[u8\] as std::ops::Index<std::ops::Range<usize>>>::index$', 1, 'first 2 bytes of an entry buffer (>= 10 bytes)'),
-    ('table::Entry::<B>::is_multihead_v4', 'call:index', r'\[u8\] as std::ops::Index<std::ops::Range<usize>>>::index$', 1, 'first 2 bytes of an entry buffer (>= 10 bytes)'),
     ('table::Entry::<B>::read_slice', 'call:index', r'\[u8\] as std::ops::Index<std::ops::Range<usize>>>::index$', 1,
      'in the closure only reached through read_size at offset 0 of the 32768-byte FullEntry (2 bytes)'),
     ('table::Entry::<B>::read_size', 'call:unwrap', r'Result::<\[u8; 2\], std::array::TryFromSliceError>::unwrap$', 1, 'read_slice(SIZE_SIZE) returns exactly 2 bytes'),
     ('table::ValueTable::validate_plan', 'call:index', r'Entry<\[u8; 32768\]> as std::ops::IndexMut<std::ops::Range<usize>>>::index_mut$', 3,
      'buf[2..2+8] (constant sum, not folded in MIR); buf[2..entry_size]: entry_size <= MAX_ENTRY_SIZE (asserted in ValueTable::open); buf[2..2+len]: len bounded by entry_size (obligation 3h)'),
     ('log::Log::open', 'call:index', r'str as std::ops::Index<std::ops::RangeFrom<usize>>>::index$', 1, 'name[3..] after name.starts_with("log") (obligation 4b)'),
+]
+
+
+def _entry_head_range(b, s):
+    """a constant range inside the first 10 bytes of the buffer of a table::Entry (every buffer an Entry is instantiated with has
+    at least 10 bytes: PartialEntry = [u8; 10], FullEntry = [u8; 32768], a mapped slot of entry_size >= 32)"""
+    t = b.term(s['block'])
+    cr = lib._const_range(b, t['a'][1]) if len(t['a']) > 1 else None
+    if not cr or any(v is None for v in cr[1]):
+        return False
+    kind, vals = cr
+    return (kind == 'Range' and 0 <= vals[0] <= vals[1] <= 10) or (kind == 'RangeTo' and vals[0] <= 10)
+
+
+# reviewed by a predicate on the site rather than by function: (path prefix, kind, regex on callee/what, predicate, reason)
+REVIEWED_IF = [
+    ('table::Entry::<B>::', 'call:index', r'\[u8\] as std::ops::Index<std::ops::Range(To)?<usize>>>::index$', _entry_head_range,
+     'a constant range within the first 10 bytes of an entry buffer (marker / size word)'),
 ]
 
 
@@ -185,7 +197,7 @@ def panic_audit(ctx, p):
            'no function reachable from the validation pass (validate_plan) creates, switches or drops a table: the record has not passed its checksum yet',
            not bad, 'reachable before the checksum is known: %s' % bad)
     counts = {}
-    nsites = nauto = nover = 0
+    nsites = nauto = nover = npred = 0
     for c in sorted(cl):
         b = F.body(c)
         for s in lib.panic_sites(b):
@@ -209,6 +221,9 @@ def panic_audit(ctx, p):
                         break
                 if hit is not None:
                     break
+            if hit is None and any(c.startswith(pre_) and kind == s['kind'] and re.search(rx, s['what']) and pred(b, s) for pre_, kind, rx, pred, _ in REVIEWED_IF):
+                npred += 1
+                continue
             if hit is None:
                 ctx.ob(p + 'unlisted %s %s %s' % (c, s['kind'], re.sub(r'\s+', ' ', s['what'])[:80]), 'K7-panic-audit', c,
                        'every panic-capable construct reachable while parsing unverified log bytes is discharged or reviewed', False,
@@ -221,7 +236,7 @@ def panic_audit(ctx, p):
             continue
         ctx.ob(p + 'reviewed %s %s #%d' % (fn, kind, i), 'K7-panic-audit', fn, 'reviewed panic-capable site(s): %s' % reason, n <= mx,
                '%d site(s) of this kind, %d reviewed' % (n, mx))
-    ctx.info['C13.panic_sites'] = {'total': nsites, 'auto_discharged': nauto, 'overflow_checks_excluded': nover, 'reviewed': sum(counts.values())}
+    ctx.info['C13.panic_sites'] = {'total': nsites, 'auto_discharged': nauto, 'overflow_checks_excluded': nover, 'reviewed': sum(counts.values()), 'reviewed_by_predicate': npred}
     ctx.ob(p + 'coverage', 'K7-panic-audit', '-', 'the audit enumerated a plausible number of sites (>= 40 on the pinned tree)', nsites >= 40, 'sites: %d' % nsites)
     # structural guards backing table entries
     hv = ctx.body('column::HashColumn::validate_plan')
@@ -398,6 +413,7 @@ def free_list_walks_bounded(ctx, p):
     cap_checkers = set(pth for pth, b in F.bodies.items() if pth.startswith('table::') and any(call_matches(t, ['re:Atomic.*::load$']) and '.TableFile.capacity' in lib.receiver_fields(b, t, 0) for _, t in b.calls())
                        and core.error_exit_blocks(b))
     n = 0
+    work = []
     for pth, b in sorted(F.bodies.items()):
         if not pth.startswith('table::ValueTable::') or '{closure' in pth:
             continue
@@ -409,6 +425,19 @@ def free_list_walks_bounded(ctx, p):
         reads = [bi for bi, t in b.calls() if bi in b.normal_blocks() and call_matches(t, ['file::TableFile::read_at'])]
         if not reads:
             continue
+        work.append((pth, b, reads))
+    # a straight-line helper that reads the link of the slot it is given (`next = self.read_free_link(next)?`): its callers are the
+    # followers, the call is their read
+    for pth, b, reads in list(work):
+        checks = [bi for bi, t in b.calls() if bi in b.normal_blocks() and any(c in cap_checkers for c in core.call_names(t))]
+        if checks or _loops(b) or b.argc < 2:
+            continue
+        callers = [(cb, [bi for bi, t in cb.calls() if bi in cb.normal_blocks() and pth in core.call_names(t)]) for cp, cb in sorted(F.bodies.items()) if cp != pth]
+        callers = [(cb, cs) for cb, cs in callers if cs]
+        if callers and all(cb.path.startswith('table::ValueTable::') and '{closure' not in cb.path for cb, _ in callers):
+            work.remove((pth, b, reads))
+            work.extend((cb.path, cb, cs) for cb, cs in callers)
+    for pth, b, reads in work:
         n += 1
         checks = [bi for bi, t in b.calls() if bi in b.normal_blocks() and any(c in cap_checkers for c in core.call_names(t))]
         loops = _loops(b)
@@ -444,13 +473,15 @@ def free_list_walks_bounded(ctx, p):
     va = ctx.body('table::ValueTable::validate_plan')
     if va:
         ok = False
-        for bi in sorted(va.normal_blocks()):
-            t = va.term(bi)
-            if t['k'] == 'switch' and op_place(t['a']) is not None:
-                sl = backward_slice(va, [op_place(t['a'])])
-                if any(re.search(r'Header::last_removed$', c) for c in sl.calls) and any(re.search(r'Header::filled$', c) for c in sl.calls) and ({'Ge', 'Lt', 'Gt', 'Le'} & set(sl.binops)):
-                    if any(e in va.reachable_from([x], removed={bi}) for x in t['ts'] for e in core.error_exit_blocks(va)):
-                        ok = True
+        # (in the validator itself or in a helper of table.rs it calls; that the helper's error is propagated is the error discipline)
+        for vb in [b for b in lib.family(F, va.path) if b.path.startswith('table::') and '{closure' not in b.path]:
+            for bi in sorted(vb.normal_blocks()):
+                t = vb.term(bi)
+                if t['k'] == 'switch' and op_place(t['a']) is not None:
+                    sl = backward_slice(vb, [op_place(t['a'])])
+                    if any(re.search(r'Header::last_removed$', c) for c in sl.calls) and any(re.search(r'Header::filled$', c) for c in sl.calls) and ({'Ge', 'Lt', 'Gt', 'Le'} & set(sl.binops)):
+                        if any(e in vb.reachable_from([x], removed={bi}) for x in t['ts'] for e in core.error_exit_blocks(vb)):
+                            ok = True
         ctx.ob(p + 'c header-free-slot-below-fill-mark', 'K3-guard', va.path, 'the validator compares the free-list head of a table header with its fill mark and refuses a head that is not below it', ok, '')
 
 
